@@ -307,6 +307,11 @@ class ModelsEmitter:
                 return  # Avoid infinite loops
 
             visited_ids.add(schema_id)
+            if getattr(schema, "_is_circular_ref", False) and all_schemas_for_generation.get(schema.name or "") is not schema:
+                # A placeholder left where a reference cycle was cut stands for the registered schema of that name;
+                # it is not a second schema competing for the class name (which one got the "2" depended on the
+                # declaration order of components.schemas).
+                return
             if schema.name:  # Only collect schemas with names
                 collected[schema_id] = schema
 
